@@ -488,6 +488,8 @@ class TableEngine:
                 if r is not None:
                     rows.append(r)
             op["rows"] = rows
+            if rng.chance(0.3, "ergen"):
+                op["how"] = "generator"
         elif name == "set_row_values":
             op["y"] = self._pick_y(rng, tv)
             n = rng.choice([0, 1, max(1, W - 1), W, W + 1], "nvals")
